@@ -20,6 +20,7 @@ import (
 func (conn *Conn) generated_ContainerList(ctx context.Context, options arvados.ListOptions) (arvados.ContainerList, error) {
 	var mtx sync.Mutex
 	var merged arvados.ContainerList
+	seen := map[string]bool{}
 	var needSort atomic.Value
 	needSort.Store(false)
 	err := conn.splitListRequest(ctx, options, func(ctx context.Context, _ string, backend arvados.API, options arvados.ListOptions) ([]string, error) {
@@ -30,15 +31,29 @@ func (conn *Conn) generated_ContainerList(ctx context.Context, options arvados.L
 		}
 		mtx.Lock()
 		defer mtx.Unlock()
+		// A backend might return the same item more than once,
+		// or return an item we already received in response to
+		// an earlier request. Report every UUID received (so
+		// the caller can tell whether progress was made), but
+		// only merge the first instance of each item.
+		uuids := make([]string, 0, len(cl.Items))
+		unique := make([]arvados.Container, 0, len(cl.Items))
+		for _, item := range cl.Items {
+			uuids = append(uuids, item.UUID)
+			if item.UUID != "" {
+				if seen[item.UUID] {
+					continue
+				}
+				seen[item.UUID] = true
+			}
+			unique = append(unique, item)
+		}
+		cl.Items = unique
 		if len(merged.Items) == 0 {
 			merged = cl
 		} else if len(cl.Items) > 0 {
 			merged.Items = append(merged.Items, cl.Items...)
 			needSort.Store(true)
-		}
-		uuids := make([]string, 0, len(cl.Items))
-		for _, item := range cl.Items {
-			uuids = append(uuids, item.UUID)
 		}
 		return uuids, nil
 	})
@@ -61,6 +76,7 @@ func (conn *Conn) generated_ContainerList(ctx context.Context, options arvados.L
 func (conn *Conn) generated_ContainerRequestList(ctx context.Context, options arvados.ListOptions) (arvados.ContainerRequestList, error) {
 	var mtx sync.Mutex
 	var merged arvados.ContainerRequestList
+	seen := map[string]bool{}
 	var needSort atomic.Value
 	needSort.Store(false)
 	err := conn.splitListRequest(ctx, options, func(ctx context.Context, _ string, backend arvados.API, options arvados.ListOptions) ([]string, error) {
@@ -71,15 +87,29 @@ func (conn *Conn) generated_ContainerRequestList(ctx context.Context, options ar
 		}
 		mtx.Lock()
 		defer mtx.Unlock()
+		// A backend might return the same item more than once,
+		// or return an item we already received in response to
+		// an earlier request. Report every UUID received (so
+		// the caller can tell whether progress was made), but
+		// only merge the first instance of each item.
+		uuids := make([]string, 0, len(cl.Items))
+		unique := make([]arvados.ContainerRequest, 0, len(cl.Items))
+		for _, item := range cl.Items {
+			uuids = append(uuids, item.UUID)
+			if item.UUID != "" {
+				if seen[item.UUID] {
+					continue
+				}
+				seen[item.UUID] = true
+			}
+			unique = append(unique, item)
+		}
+		cl.Items = unique
 		if len(merged.Items) == 0 {
 			merged = cl
 		} else if len(cl.Items) > 0 {
 			merged.Items = append(merged.Items, cl.Items...)
 			needSort.Store(true)
-		}
-		uuids := make([]string, 0, len(cl.Items))
-		for _, item := range cl.Items {
-			uuids = append(uuids, item.UUID)
 		}
 		return uuids, nil
 	})
@@ -102,6 +132,7 @@ func (conn *Conn) generated_ContainerRequestList(ctx context.Context, options ar
 func (conn *Conn) generated_GroupList(ctx context.Context, options arvados.ListOptions) (arvados.GroupList, error) {
 	var mtx sync.Mutex
 	var merged arvados.GroupList
+	seen := map[string]bool{}
 	var needSort atomic.Value
 	needSort.Store(false)
 	err := conn.splitListRequest(ctx, options, func(ctx context.Context, _ string, backend arvados.API, options arvados.ListOptions) ([]string, error) {
@@ -112,15 +143,29 @@ func (conn *Conn) generated_GroupList(ctx context.Context, options arvados.ListO
 		}
 		mtx.Lock()
 		defer mtx.Unlock()
+		// A backend might return the same item more than once,
+		// or return an item we already received in response to
+		// an earlier request. Report every UUID received (so
+		// the caller can tell whether progress was made), but
+		// only merge the first instance of each item.
+		uuids := make([]string, 0, len(cl.Items))
+		unique := make([]arvados.Group, 0, len(cl.Items))
+		for _, item := range cl.Items {
+			uuids = append(uuids, item.UUID)
+			if item.UUID != "" {
+				if seen[item.UUID] {
+					continue
+				}
+				seen[item.UUID] = true
+			}
+			unique = append(unique, item)
+		}
+		cl.Items = unique
 		if len(merged.Items) == 0 {
 			merged = cl
 		} else if len(cl.Items) > 0 {
 			merged.Items = append(merged.Items, cl.Items...)
 			needSort.Store(true)
-		}
-		uuids := make([]string, 0, len(cl.Items))
-		for _, item := range cl.Items {
-			uuids = append(uuids, item.UUID)
 		}
 		return uuids, nil
 	})
@@ -143,6 +188,7 @@ func (conn *Conn) generated_GroupList(ctx context.Context, options arvados.ListO
 func (conn *Conn) generated_SpecimenList(ctx context.Context, options arvados.ListOptions) (arvados.SpecimenList, error) {
 	var mtx sync.Mutex
 	var merged arvados.SpecimenList
+	seen := map[string]bool{}
 	var needSort atomic.Value
 	needSort.Store(false)
 	err := conn.splitListRequest(ctx, options, func(ctx context.Context, _ string, backend arvados.API, options arvados.ListOptions) ([]string, error) {
@@ -153,15 +199,29 @@ func (conn *Conn) generated_SpecimenList(ctx context.Context, options arvados.Li
 		}
 		mtx.Lock()
 		defer mtx.Unlock()
+		// A backend might return the same item more than once,
+		// or return an item we already received in response to
+		// an earlier request. Report every UUID received (so
+		// the caller can tell whether progress was made), but
+		// only merge the first instance of each item.
+		uuids := make([]string, 0, len(cl.Items))
+		unique := make([]arvados.Specimen, 0, len(cl.Items))
+		for _, item := range cl.Items {
+			uuids = append(uuids, item.UUID)
+			if item.UUID != "" {
+				if seen[item.UUID] {
+					continue
+				}
+				seen[item.UUID] = true
+			}
+			unique = append(unique, item)
+		}
+		cl.Items = unique
 		if len(merged.Items) == 0 {
 			merged = cl
 		} else if len(cl.Items) > 0 {
 			merged.Items = append(merged.Items, cl.Items...)
 			needSort.Store(true)
-		}
-		uuids := make([]string, 0, len(cl.Items))
-		for _, item := range cl.Items {
-			uuids = append(uuids, item.UUID)
 		}
 		return uuids, nil
 	})
@@ -184,6 +244,7 @@ func (conn *Conn) generated_SpecimenList(ctx context.Context, options arvados.Li
 func (conn *Conn) generated_UserList(ctx context.Context, options arvados.ListOptions) (arvados.UserList, error) {
 	var mtx sync.Mutex
 	var merged arvados.UserList
+	seen := map[string]bool{}
 	var needSort atomic.Value
 	needSort.Store(false)
 	err := conn.splitListRequest(ctx, options, func(ctx context.Context, _ string, backend arvados.API, options arvados.ListOptions) ([]string, error) {
@@ -194,15 +255,29 @@ func (conn *Conn) generated_UserList(ctx context.Context, options arvados.ListOp
 		}
 		mtx.Lock()
 		defer mtx.Unlock()
+		// A backend might return the same item more than once,
+		// or return an item we already received in response to
+		// an earlier request. Report every UUID received (so
+		// the caller can tell whether progress was made), but
+		// only merge the first instance of each item.
+		uuids := make([]string, 0, len(cl.Items))
+		unique := make([]arvados.User, 0, len(cl.Items))
+		for _, item := range cl.Items {
+			uuids = append(uuids, item.UUID)
+			if item.UUID != "" {
+				if seen[item.UUID] {
+					continue
+				}
+				seen[item.UUID] = true
+			}
+			unique = append(unique, item)
+		}
+		cl.Items = unique
 		if len(merged.Items) == 0 {
 			merged = cl
 		} else if len(cl.Items) > 0 {
 			merged.Items = append(merged.Items, cl.Items...)
 			needSort.Store(true)
-		}
-		uuids := make([]string, 0, len(cl.Items))
-		for _, item := range cl.Items {
-			uuids = append(uuids, item.UUID)
 		}
 		return uuids, nil
 	})
